@@ -129,6 +129,24 @@ class E1Check:
         cfg["name"] = rec["config"]
         hist = tuple(rec["history"])
         counters = collections.Counter()
+        if "unexpected-exception-while-" in rec.get("signature", ""):
+            explorer._CTX.update(check=self, cfgs=[cfg], alpha=self.alpha)
+            try:
+                w0 = W.World.build(cfg, self.alpha, hist)
+                stored = w0.stored()
+                w0.close()
+            except Exception as e:
+                v = explorer._crash_violation(self, e, "observing", hist)
+                return [v] if v else []
+            out = []
+            if "observing" in rec["signature"]:
+                r = explorer._observe((0, hist, stored))
+                out += r[0]
+            else:
+                r = explorer._expand((0, hist, stored))
+                for op, outcome, key, post, viols in r[0]:
+                    out += viols
+            return out
         if rec.get("kind") == "state":
             w0 = W.World.build(cfg, self.alpha, hist)
             stored = w0.stored()
